@@ -42,8 +42,8 @@ CLAIMS["C20"] = {
 CLAIMS["C08"] = {
     "technique": "rapid-drawn schedules over yield-instrumented source (controlled scheduler), quiescence invariant",
     "engine": "sched",
-    "text": "The harness owns the schedule: tools/instrument inserts a yield before every lock/unlock/channel/select operation of the working-tree packetio/buffer.go and deadline/deadline.go (supplied via -overlay), reader/writer/closer/deadline tasks are serialised by harness/sched, and rapid draws which task advances (four strategies incl. 'hold tasks before a blocking operation'). At true quiescence (every task finished or seen parked in a runtime blocking state) the oracle demands: no reader parked while Count()>0, none after Close, none under a passed deadline; reads+buffered==writes; drain to EOF. Exploration of drawn schedules, not exhaustive.",
-    "note": "Trusted: goroutine wait states reported by runtime.Stack; yield granularity = synchronisation operations of the two files; the runtime's choice among ready select cases is not controlled. Future read deadlines (real timers) are exercised in C10, not here.",
+    "text": "The harness owns the schedule: tools/instrument inserts a yield before every lock/unlock/channel/select operation of the working-tree packetio/buffer.go and deadline/deadline.go (supplied via -overlay), reader/writer/closer/deadline tasks (past, zero and virtual-clock future deadlines with their timer callbacks as tasks) are serialised by harness/sched, and rapid draws which task advances (four strategies incl. 'hold tasks before a blocking operation'). At true quiescence (every task finished or seen parked in a runtime blocking state) the oracle demands: no reader parked while Count()>0, none after Close, none under a passed deadline; reads+buffered==writes; drain to EOF. Exploration of drawn schedules, not exhaustive.",
+    "note": "Trusted: goroutine wait states reported by runtime.Stack; yield granularity = synchronisation operations of the two files; the runtime's choice among ready select cases is not controlled. Future read deadlines run on a virtual clock (timer callbacks as tasks); real timers are exercised in C10.",
     "design_ref": "DESIGN.md §2.3, §3 C08",
 }
 CLAIMS["C09"] = {
@@ -134,7 +134,7 @@ CLAIMS["C12"] = {
 CLAIMS["C10"] = {
     "technique": "rapid-generated deadline/idle/inject/read histories run in parallel on five connection types on the real clock (both GODEBUG timer semantics), timestamp oracle",
     "engine": "rapid-models",
-    "text": "Generated-input search: each history of SetReadDeadline(zero|past|+8..30 ms|+10 s), idle periods, data arrivals and reads (at most one outstanding, optionally left parked while later steps run) is executed on packetio.Buffer, a dpipe end, a udp listener connection over a real socket, a vnet UDPConn behind a router and a Bridge endpoint, under GODEBUG=asynctimerchan=1 and =0. From monotonic timestamps and the list of deadlines in force during each call: a timeout is legal only if a non-zero deadline in force had passed at return; data is illegal once a read has timed out under the same unchanged deadline; an outstanding read is released within 2 s of its deadline, or by data when none is pending. Exploration only, real time.",
+    "text": "Generated-input search: each history of SetReadDeadline(zero|past|+8..30 ms|+10 s), idle periods, data arrivals and reads (at most one outstanding, optionally left parked while later steps run) is executed on packetio.Buffer, a dpipe end, a udp listener connection over a real socket, a vnet UDPConn behind a router and a Bridge endpoint, under GODEBUG=asynctimerchan=1 and =0. From monotonic timestamps and the list of deadlines in force during each call: a timeout is legal only if a non-zero deadline in force had passed at return; data is illegal once a read has timed out under the same unchanged deadline; an outstanding read is released within 2 s of its deadline, or by data when none is pending. A virtual-clock variant runs packetio.Buffer, dpipe and a Bridge endpoint with deadline/deadline.go yield-instrumented and its timers on a virtual clock under rapid-drawn schedules (reader, deadliner, injector, clock and timer-callback tasks), so a deadline changed while an expired timer's callback has not run yet is a drawn choice; afterwards a fresh deadline is made to pass: parked reads are released, reads keep timing out with data waiting, and a zero deadline returns the data. Exploration only.",
     "note": "The runtime never fires timers early, so 'no early timeout' cannot be falsified by load; 'timeouts persist' is asserted logically (after a timeout has been observed under the same deadline) or with a 300 ms margin; liveness margins of 2-3 s. Sub-microsecond earliness could be missed.",
     "design_ref": "DESIGN.md §3 C10",
 }
